@@ -40,7 +40,7 @@ func mk(id, rule string, p Profile, quick, thorough int, mon func(fw.Case, []str
 			return []string{"real:pre-emptions-executed:4+"}
 		},
 		Sigs: map[string]func(fw.Case, []string, string) bool{"dirtyValueHistory": dirtySig,
-			"textualPrefix": textualPrefixSig, "recreateUnderDeleted": recreateSig, "rollbackOfSubtreeDelete": rollbackSig, "refusalWriteLost": refusalWriteLostSig},
+			"textualPrefix": textualPrefixSig, "recreateUnderDeleted": recreateSig, "rollbackOfSubtreeDelete": rollbackSig, "refusalWriteLost": refusalWriteLostSig, "refusalUnrecorded": refusalUnrecordedSig},
 	}
 }
 
